@@ -129,7 +129,7 @@ def predicate_search(ctx, build, lines, hout, which):
 def run_generic(ctx, which, module, vo, files, what):
     st = coq.proof_stage(ctx, module, vo, files)
     finish_proof(ctx, st)
-    reps = 6 if ctx.tier == 'quick' else 80
+    reps = 6 if ctx.tier == 'quick' else 400
     allm = []; hist = {}
     outs = {}
     for b in ('ark', 'min'):
